@@ -25,6 +25,14 @@ Parts
           onsets '(Delay/1 s, Onset, Def/X)', with declared definitions, alone and next to an ordinary tag or group: EVERY
           permutation of the top-level members, each with the members of all groups as written and reversed, plus random
           shuffles and one combined rewrite, must give the same multiset of error codes.
+  nest  : sibling groups that hold the SAME tags in DIFFERENT nesting.  Pools: every group (up to member order) whose leaves are
+          exactly {Red, Blue} with nesting depth <= 3, resp. {Red, Blue, Green} with depth <= 2 (thorough: deeper pools too) - e.g.
+          (Red,(Blue,Green)), (Red,(Blue),(Green)), ((Red),(Blue)), ((Red,Blue)), groups made only of sub-groups.  3 or 4 siblings
+          out of one pool (with repetition: two copies next to a differently nested look-alike, and no copies at all), at top
+          level, inside a group next to a tag, as the only members of a group, and two levels down; every permutation of the
+          siblings x several written member orders of each sibling (the copies in every pair of their member orders).
+          Absolute: TAG_EXPRESSION_REPEATED iff two siblings are equal up to member order at every level (canonical form
+          computed from the text); relational: the same codes for every writing.
 """
 import itertools
 import random
@@ -755,6 +763,128 @@ def part_temporal(w, run, model, defs, chunk, nchunks):
 
 
 # =====================================================================================================
+# part nest: same tags, different nesting
+# =====================================================================================================
+def nest_pool(model, alphabet, max_depth):
+    """one representative of every group (up to member order) whose leaves are exactly the tags of `alphabet` (each once),
+    nesting depth <= max_depth (the group itself counts)"""
+    nodes = [model.node(a) for a in alphabet]
+    k = len(nodes)
+    seen = {}
+    for sh in forests(k, max_depth):
+        if len(sh) != 1 or sh[0] is None:
+            continue
+        for lab in itertools.permutations(range(k)):
+            it = iter(lab)
+
+            def fill(items):
+                return [Leaf(nodes[next(it)]) if x is None else fill(x[1:]) for x in items]
+            t = fill(sh)
+            seen.setdefault(canon_top(t), t[0])
+    return [seen[key] for key in sorted(seen)]
+
+
+def nest_jobs(model, quick, seed):
+    """-> (pools, jobs); a job = (pool index, tuple of member indices into the pool (a multiset), wrap index).  The list is the
+    same in every chunk (own seeded generator)."""
+    rng = random.Random("%s/nest-jobs" % seed)
+    specs = [(("Red", "Blue"), 3), (("Red", "Blue", "Green"), 2)]
+    if not quick:
+        specs += [(("Red", "Blue"), 4), (("Red", "Blue", "Green"), 3)]
+    pools = [("{%s} depth <= %d" % (",".join(a), d), nest_pool(model, a, d)) for a, d in specs]
+    jobs = []
+    for pi, (_, pool) in enumerate(pools):
+        n = len(pool)
+        big = n > 20
+        idx = range(n)
+        twice = [(g, g, h) for g in idx for h in idx if g != h]            # two copies and a look-alike
+        thrice = [(g, g, g) for g in idx]
+        distinct = list(itertools.combinations(idx, 3))                    # no copies: nothing may be reported
+        if big:
+            twice = rng.sample(twice, 600)
+            distinct = rng.sample(distinct, 400)
+        elif quick:
+            distinct = rng.sample(distinct, min(len(distinct), 70))
+        four = []
+        for _ in range(24 if quick else 250):
+            kind = rng.randrange(4)
+            g, h, i, j = (rng.randrange(n) for _ in range(4))
+            four.append(tuple(sorted({0: (g, g, h, i), 1: (g, g, h, h), 2: (g, h, i, j), 3: (g, g, g, h)}[kind])))
+        for m in twice + thrice + distinct + sorted(set(four)):
+            jobs.append((pi, tuple(m), len(jobs) % 4))
+    return pools, jobs
+
+
+def nest_wrap(model, sibs, wi, k):
+    if wi == 0:
+        return list(sibs)                                          # top level
+    if wi == 1:
+        inner = list(sibs)
+        inner.insert(k % (len(inner) + 1), Leaf(model.node("Square")))
+        return [inner]                                             # inside a group, next to a tag
+    if wi == 2:
+        return [list(sibs)]                                        # a group made only of these sub-groups
+    return [Leaf(model.node("Circle")), [[Leaf(model.node("Ellipse")), list(sibs)]]]     # two levels further down
+
+
+def part_nest(w, run, model, chunk, nchunks):
+    rng = w.rng
+    quick = w.quick
+    before = run.n
+    pools, jobs = nest_jobs(model, quick, w.seed)
+    ord_cache = {}
+
+    def written(pi, gi):
+        if (pi, gi) not in ord_cache:
+            ord_cache[(pi, gi)] = [o[0] for o in orderings([pools[pi][1][gi]])]
+        return ord_cache[(pi, gi)]
+
+    n_jobs = 0
+    mine = [(ji, job) for ji, job in enumerate(jobs) if ji % nchunks == chunk]
+    mine.sort(key=lambda x: (x[1][2], x[0]))             # top-level sets first: the shortest failure records come first
+    for ji, (pi, members, wi) in mine:
+        n_jobs += 1
+        opts = [written(pi, gi) for gi in members]
+        # writings: which written member order each sibling gets
+        copies = [k for k in range(1, len(members)) if members[k] == members[k - 1]]
+        writings = [[0] * len(members)]
+        if not (quick and copies):
+            writings.append([len(o) - 1 for o in opts])
+        for k in copies:                       # the two copies in pairs of their member orders, the others as listed / at random
+            no = len(opts[k])
+            pairs = [(a, b) for a in range(no) for b in range(no) if a != b]
+            if len(pairs) > (2 if quick else 12):
+                pairs = [(0, no - 1)] + rng.sample(pairs, (2 if quick else 12) - 1)
+            for a, b in pairs:
+                wr = [rng.randrange(len(o)) if rng.random() < 0.5 else 0 for o in opts]
+                wr[k - 1], wr[k] = a, b
+                writings.append(wr)
+        for _ in range(1 if quick else 3):
+            writings.append([rng.randrange(len(o)) for o in opts])
+        perms = list(itertools.permutations(range(len(members))))
+        if len(perms) > 6 and quick:
+            perms = [perms[0]] + rng.sample(perms[1:], 7)
+        base_t = None
+        base = None
+        seen = set()
+        for wr in writings:
+            sibs0 = [opts[k][wr[k]] for k in range(len(members))]
+            for perm in perms:
+                tree = nest_wrap(model, [sibs0[k] for k in perm], wi, ji + perm[0])
+                txt = render(tree)
+                if txt in seen:
+                    continue
+                seen.add(txt)
+                dup = has_equal_siblings(tree)
+                absolute(w, run, txt, CL_ORDER_D2 if (dup and not d2_count(tree)) else CL_REPEAT, dup)
+                if base is None:
+                    base_t, base = tree, txt
+                else:
+                    run.same(base, txt, order_clause(base_t, tree), "order of siblings with the same tags in different nesting")
+    return run.n - before, [(name, len(p)) for name, p in pools], n_jobs
+
+
+# =====================================================================================================
 def _task(args):
     tier, seed, version, part, chunk, nchunks = args
     w = Workload("C04", tier, seed)
@@ -789,6 +919,8 @@ def _task(args):
         n = part_rich(w, run, model, vocab, defs)
     elif part == "temporal":
         n, info["pool"], info["combos"] = part_temporal(w, run, model, defs, chunk, nchunks)
+    elif part == "nest":
+        n, info["nest_pools"], info["combos"] = part_nest(w, run, model, chunk, nchunks)
     else:
         n = part_vcase(w, run, model, vocab)
     return {"version": version, "part": part, "chunk": chunk, "cases": n, "counts": run.counts, "info": info,
@@ -813,6 +945,7 @@ def run(w: Workload):
     tasks = []
     schunks = 6 if w.quick else 13
     tchunks = 3 if w.quick else 8
+    nchunks_nest = 5 if w.quick else 10
     for v in temporal_versions:
         tasks += [(w.tier, w.seed, v, "temporal", c, tchunks) for c in range(tchunks)]
     for v in versions:
@@ -821,12 +954,13 @@ def run(w: Workload):
             tasks += [(w.tier, w.seed, v, "small", c, schunks) for c in range(schunks)]
             tasks += [(w.tier, w.seed, v, "delims", 0, 1)]
             tasks += [(w.tier, w.seed, v, "dups", c, 3) for c in range(3)]
+            tasks += [(w.tier, w.seed, v, "nest", c, nchunks_nest) for c in range(nchunks_nest)]
         tasks += [(w.tier, w.seed, v, "rich", c, 1) for c in range(2 if w.quick else 6)]
         tasks += [(w.tier, w.seed, v, "vcase", 0, 1)]
     ctx = multiprocessing.get_context("fork")
     with ctx.Pool(min(14, len(tasks))) as pool:
         results = pool.map(_task, tasks, chunksize=1)
-    order = ["witness", "vcase", "dups", "small", "delims", "rich", "temporal"]
+    order = ["witness", "vcase", "dups", "nest", "small", "delims", "rich", "temporal"]
     allv = versions + [v for v in temporal_versions if v not in versions]
     results.sort(key=lambda r: (allv.index(r["version"]), order.index(r["part"]), r["chunk"]))
     agg = {}
@@ -839,7 +973,8 @@ def run(w: Workload):
             if sum(1 for g in w.failures if g["clause"] == f["clause"]) < w.max_failures_per_clause:
                 w.failures.append(f)
         w.samples += r["samples"]
-        a = agg.setdefault((r["version"], r["part"]), {"cases": 0, "counts": {}, "trees": 0, "pool": 0, "combos": 0})
+        a = agg.setdefault((r["version"], r["part"]), {"cases": 0, "counts": {}, "trees": 0, "pool": 0, "combos": 0, "nest_pools": []})
+        a["nest_pools"] = r["info"].get("nest_pools", a["nest_pools"])
         a["cases"] += r["cases"]
         a["pool"] = max(a["pool"], r["info"].get("pool", 0))
         a["combos"] += r["info"].get("combos", 0)
@@ -867,6 +1002,13 @@ def run(w: Workload):
             "dups": "every group G over {Red, Blue, Green} with <= 3 leaves and depth <= 2, every pair of written member orders of G as "
                     "two sibling copies, 7 sets of further siblings, %s sibling positions, at nesting depth 0, 1 and 3 "
                     "(annotation depth <= 5)" % ("4 sampled" if w.quick else "all"),
+            "nest": "%d sets of sibling groups out of the pools %s (every group, up to member order, with exactly these tags and that "
+                    "nesting depth): per pool every (two copies + one other group), every (three copies), %s (three different groups) and "
+                    "<= %d sets of 4; each set in one of 4 surroundings (top level / in a group next to a tag / only members of a group / two "
+                    "levels down), %s permutations of the siblings x written member orders (as listed, last ordering (quick: only without copies), the copies in %s "
+                    "pairs of their member orders, %d random): absolute repeat oracle and equality with the first writing" %
+                    (a["combos"], a["nest_pools"], "a sample of" if w.quick else "all (big pools: a sample of)", 24 if w.quick else 250,
+                     "all (4 siblings: 8)" if w.quick else "all", "2" if w.quick else "<= 12", 1 if w.quick else 3),
             "vcase": "10-60 valued or extended tags: two copies with values 'abc' / 'ABC', 3 layouts, 4 respellings; and the triples "
                      "ABC/Abd/abc, Run/Stop/run (middle value sorts between the copies in code-point order) in 7 layouts, %s "
                      "orderings each: absolute repeat check, order, respelling and blank rewrites" % ("<= 8" if w.quick else "all"),
